@@ -62,9 +62,12 @@ Definition insert_edata (g : dag) (s d : node) (e : E) : dag :=
   set_edata g (remove_edata_l (edata g) (s, d) ++ [((s, d), e)]).
 
 (* ---- add_node ---- *)
-Definition add_node (g : dag) : node * dag :=
+(* SlotMap::insert hands out a key that is not live; the model takes the key as a parameter (precondition: not live).
+   pie_graph on its own uses the creation index (add_node); the store model uses keys derived from the task/resource. *)
+Definition add_node_at (g : dag) (id : node) : dag :=
   let r := last g + 1 in
-  (fresh g, mkDag (infos g ++ [(fresh g, mkNinfo r [] [])]) (edata g) r (fresh g + 1)).
+  mkDag (infos g ++ [(id, mkNinfo r [] [])]) (edata g) r (N.max (fresh g) (id + 1)).
+Definition add_node (g : dag) : node * dag := (fresh g, add_node_at g (fresh g)).
 
 (* ---- remove_node ---- *)
 Definition remove_node (g : dag) (n : node) : bool * dag :=
